@@ -96,3 +96,88 @@ def roundtrip(values, bits, version, delta):
         return True, "agrees"
     finally:
         shutil.rmtree(d, ignore_errors=True)
+
+
+def _hybrid_bitpacked(vals, width):
+    """one bit-packed run covering all values (padded to a multiple of 8)"""
+    groups = (len(vals) + 7) // 8
+    padded = list(vals) + [0] * (groups * 8 - len(vals))
+    bits = 0
+    for i, v in enumerate(padded):
+        bits |= v << (i * width)
+    return _uleb((groups << 1) | 1) + bits.to_bytes(groups * width, "little")
+
+
+def build_dict(path, dictionary, indices, width, nulls=None, optional=False, pages=1):
+    """flat INT64 column, data page v1, RLE_DICTIONARY: a PLAIN dictionary page followed by `pages` data pages whose
+    indices are one bit-packed run of the given width; nulls (list of bool per row) only when optional"""
+    from fastparquet import parquet_thrift as pt
+    n = len(nulls) if nulls is not None else len(indices)
+    nulls = list(nulls) if nulls is not None else [False] * n
+    data = bytearray(b"PAR1")
+    start = len(data)
+    dbody = b"".join(struct.pack("<q", v) for v in dictionary)
+    dph = pt.PageHeader(type=2, uncompressed_page_size=len(dbody), compressed_page_size=len(dbody),
+                        dictionary_page_header=pt.DictionaryPageHeader(num_values=len(dictionary), encoding=0, i32=1),
+                        i32=1)
+    data += bytes(dph.to_bytes()) + dbody
+    data_start = len(data)
+    per = (n + pages - 1) // pages if pages else n
+    it = iter(indices)
+    for a in range(0, n, max(per, 1)):
+        rows = nulls[a:a + per]
+        idx = [next(it) for isnull in rows if not isnull]
+        body = b""
+        if optional:
+            lv = _hybrid_bitpacked([0 if x else 1 for x in rows], 1)
+            body += struct.pack("<I", len(lv)) + lv
+        body += bytes([width]) + (_hybrid_bitpacked(idx, width) if width else b"")
+        ph = pt.PageHeader(type=0, uncompressed_page_size=len(body), compressed_page_size=len(body),
+                           data_page_header=pt.DataPageHeader(num_values=len(rows), encoding=8,
+                                                              definition_level_encoding=3,
+                                                              repetition_level_encoding=3, i32=1), i32=1)
+        data += bytes(ph.to_bytes()) + body
+    size = len(data) - start
+    md = pt.ColumnMetaData(type=2, encodings=[0, 3, 8], path_in_schema=["x"], codec=0, num_values=n,
+                           total_uncompressed_size=size, total_compressed_size=size, data_page_offset=data_start,
+                           dictionary_page_offset=start, i32list=[1, 4])
+    rg = pt.RowGroup(columns=[pt.ColumnChunk(file_offset=start, meta_data=md)], total_byte_size=size, num_rows=n)
+    schema = [pt.SchemaElement(name="schema", num_children=1),
+              pt.SchemaElement(name="x", type=2, repetition_type=1 if optional else 0)]
+    fmd = pt.FileMetaData(version=1, schema=schema, num_rows=n, row_groups=[rg],
+                          created_by="spec-level builder", i32list=[1])
+    foot = bytes(fmd.to_bytes())
+    data += foot + struct.pack("<I", len(foot)) + b"PAR1"
+    with open(path, "wb") as f:
+        f.write(bytes(data))
+
+
+def roundtrip_dict(nulls, width, optional):
+    """(ok, info): a dictionary-encoded file whose indices reach the top of the width's range reads back right"""
+    import shutil, tempfile
+    import fastparquet
+    d = tempfile.mkdtemp(prefix="c03-")
+    try:
+        # not a power of two: an index that wrapped negative must not land on the right entry by accident
+        size = (min(1 << width, 1030) - (3 if width >= 2 else 0)) if width else 1
+        dictionary = [1000 + 3 * i for i in range(size)]
+        nval = sum(1 for x in nulls if not x)
+        picks = [size - 1, size // 2, 0, size - 1 - (size > 1), 1 % size]
+        indices = [picks[i % len(picks)] for i in range(nval)]
+        fn = os.path.join(d, "dict.parq")
+        build_dict(fn, dictionary, indices, width, nulls=nulls, optional=optional)
+        want, it = [], iter(indices)
+        for isnull in nulls:
+            want.append(None if isnull else dictionary[next(it)])
+        try:
+            col = fastparquet.ParquetFile(fn).to_pandas()["x"]
+            import pandas as pd
+            out = [None if pd.isna(x) else int(x) for x in col.astype("object")]
+        except Exception as ex:
+            return False, "%s: %s" % (type(ex).__name__, str(ex)[:100])
+        if out != want:
+            return False, "dictionary of %d entries, index width %d: reads %r, file encodes %r" % (
+                size, width, out[:6], want[:6])
+        return True, "agrees"
+    finally:
+        shutil.rmtree(d, ignore_errors=True)
